@@ -72,6 +72,10 @@ type Exec struct {
 	revealed      map[string]bool
 	usedLemmas    map[string]bool
 	lockSnap      *State // state right after the latest Lock() (havoc + invariant)
+	curRange      *ssa.Range
+	// specEq: == on aggregates in contracts is identity (a NaN field equals
+	// itself); goeq() gives Go's IEEE semantics.
+	specEq bool
 }
 
 type unsupportedErr struct{ msg string }
